@@ -51,9 +51,22 @@ func (c *chunk) GetNextAlloc() (int64, int64) { return c.beg + c.allocated, c.en
 func (c *chunk) AddAlloc(n int64)             { c.allocated += n }
 func (c *chunk) IsAllocated() bool            { return c.allocated == c.end-c.beg }
 
-type memReadable struct{ *bytes.Reader }
+// memReadable is the opened source file. With max > 0 a Read hands out at most max bytes
+// without an error (what io.Reader allows and a pipe, a network file system or a decompressing
+// opener does): the environment answer "short read" at the source seam.
+type memReadable struct {
+	*bytes.Reader
+	max int
+}
 
 func (memReadable) Close() error { return nil }
+
+func (m memReadable) Read(p []byte) (int, error) {
+	if m.max > 0 && len(p) > m.max {
+		p = p[:m.max]
+	}
+	return m.Reader.Read(p)
+}
 
 type partSpec struct {
 	File     int   `json:"file"`
@@ -115,10 +128,16 @@ func c13Run(c c13Case) (viol string) {
 		}
 		files[i] = &memFile{name: c.Names[i], data: d, t: t, hash: vh.MD5(d), prev: c.Names[(i+1)%len(c.Names)]} // the predecessor is another file of the source: its name may hold separators when the part's own name holds none
 	}
+	// the cases with the second separator read their source files in pieces of at most 3 bytes,
+	// the others get every read filled: each part list x buffer x compression is run both ways
+	srcMax := 0
+	if c.Sep == "\\" {
+		srcMax = 3
+	}
 	opener := func(f sts.File) (sts.Readable, error) {
 		for _, mf := range files {
 			if mf.name == f.GetName() {
-				return memReadable{bytes.NewReader(mf.data)}, nil
+				return memReadable{bytes.NewReader(mf.data), srcMax}, nil
 			}
 		}
 		return nil, fmt.Errorf("no such file %s", f.GetName())
